@@ -194,21 +194,23 @@ RtoBounds == P_RtoBounds(st.rto)
 RtoFormula == (st.phase = "subsequent" /\ st.k = 0) => P_RtoFormula(st.rto, st.srtt, st.rttvar)
 
 (* "doubles on each timeout until the cap and returns to the sample-derived value on the next sample":
-   after k timeouts the timeout is the sample-derived value doubled k times, cut at 60 s; with k = 0
-   (a sample was just taken) it is the sample-derived value itself, whatever back-off preceded. *)
-Doubling == /\ st.rto = Backoff(st.base, st.k)
-            /\ (st.k = 0 => st.rto = st.base)
-            /\ (st.phase = "subsequent" => st.base = CalcRto(st.srtt, st.rttvar))
+   after k timeouts the timeout is the sample-derived value (InitialRto before the first sample) doubled
+   k times and cut at 60 s; with k = 0 -- a sample was just taken -- that is the sample-derived value
+   itself, whatever back-off preceded. *)
+Doubling == st.rto = Backoff(st.base, st.k)
 
-(* the same clause as a property of single steps (checked on every transition, merged states included) *)
+(* the same clause as a property of single steps (checked on every transition, merged states included):
+   a timeout doubles up to the cap and touches nothing else; a sample makes the timeout the
+   sample-derived value (the one RtoFormula describes), independently of the timeout before it *)
 DoublingStep ==
-    [][ /\ (st'.k = st.k + 1 => P_Doubling(st.rto, st'.rto) /\ st'.srtt = st.srtt /\ st'.base = st.base)
-        /\ (st'.k = 0 => st'.rto = CalcRto(st'.srtt, st'.rttvar)) ]_vars
+    [][ /\ (st'.k = st.k + 1 => /\ P_Doubling(st.rto, st'.rto)
+                                /\ st'.srtt = st.srtt /\ st'.rttvar = st.rttvar /\ st'.base = st.base)
+        /\ (st'.k = 0 => st'.rto = st'.base) ]_vars
 
 (* "the smoothed RTT always lies between the smallest and largest sample seen" *)
 SrttBetween == st.phase = "subsequent" => P_SrttBetween(st.srtt, st.lo, st.hi)
 
-(* not a clause of the property; keeps the 32-bit limbs honest: the variance never exceeds the spread
-   of the samples by more than the first sample's half *)
+(* not a clause of the property; keeps the 32-bit limbs honest: the variance never exceeds the largest
+   sample (so 4 * rttvar and 7 * srtt stay below 2^31 ms for samples up to 74 hours) *)
 VarBounded == st.phase = "subsequent" => DLe(st.rttvar, st.hi)
 =============================================================================
